@@ -120,6 +120,9 @@ def run(chk, ctx):
         empt = [f[3] for f in pi.cmp_facts() if f[0] == "call" and f[1] == "Vec::is_empty" and f[2] == ("self.cache",)]
         # `is_empty()` is a query without effect: asking again (an assertion, a second guard) does not change the composition
         names = tuple(n_ for k_, n_ in enumerate(names) if not (n_ == "is_empty" and "is_empty" in names[:k_]))
+        # the two generators only read the popped row and `changed` (&self, no effect): their mutual order is immaterial
+        if names[-2:] == ("generate_expected_entries", "generate_input_entries"):
+            names = names[:-2] + ("generate_input_entries", "generate_expected_entries")
         seqs.add((empt[0] if empt else None, names))
     tail = ("expand_x", "expand_c", "pop", "check_changed_entries", "generate_input_entries", "generate_expected_entries")
     want = {(False, ("is_empty",) + tail), (True, ("is_empty", "next_with_context", "push") + tail), (True, ("is_empty", "next_with_context"))}
